@@ -148,4 +148,61 @@ def abs (c : Conf α) : Net α := { c.st with pc := pcOf c.node c.reg }
 /-- the register holds a value at the three points that are about to enqueue it -/
 def WF (c : Conf α) : Prop := c.node < 12 ∧ ((c.node = 2 ∨ c.node = 5 ∨ c.node = 11) → c.reg.isSome)
 
+/-! ### environment moves, read off the graph
+
+The environment's send on `in` may complete by handing the value to the pump while the pump stands at a program point
+that can receive from `in` (the value is appended and the pump's receive, which stays enabled, takes it); the
+environment's receive on an empty `eg` may take the backlog head directly from the pump while the pump stands at a point
+that sends it.  Both are properties of the program point's KIND. -/
+
+/-- can the program point receive from `inp`? -/
+def Node.recvsInp : Node → Bool
+  | .select arms _ => arms.any fun a => match a with | .recv .inp _ _ => true | _ => false
+  | _ => false
+
+/-- where the pump continues after handing the backlog head to a receiver on `eg` at this program point -/
+def Node.sendsHead : Node → Option Nat
+  | .select arms _ => arms.findSome? fun a => match a with | .sendHead .eg n => some n | _ => none
+  | .flushSend .eg sent _ => some sent
+  | _ => none
+
+def recvReadyG (g : Graph) (c : Conf α) : Nat :=
+  match g[c.node]? with
+  | some n => if n.recvsInp then 1 else 0
+  | none => 0
+
+def handoffG (g : Graph) (c : Conf α) : List (Conf α × α) :=
+  if c.st.eg.closed ∨ c.st.eg.buf ≠ [] then [] else
+  match (g[c.node]?).bind Node.sendsHead, c.st.mq with
+  | some n, v :: _ => [({ c with node := n, st := { c.st with delivered := c.st.delivered ++ [v] } }, v)]
+  | _, _ => []
+
+/-- environment moves on a configuration (the same moves as `Unbound.envNext`, with the two hand-off conditions read off
+the graph) -/
+def envNextG (g : Graph) (c : Conf α) : Move α → List (Conf α × Obs α)
+  | .send v =>
+    if c.st.inp.closed then [(c, .nope)]
+    else if c.st.inp.buf.length < c.st.inp.cap + recvReadyG g c then
+      [({ c with st := { c.st with inp := { c.st.inp with buf := c.st.inp.buf ++ [v] }, sent := c.st.sent ++ [v] } }, .ok)]
+    else [(c, .full)]
+  | .close =>
+    if c.st.inp.closed then [(c, .nope)]
+    else [({ c with st := { c.st with inp := { c.st.inp with closed := true } } }, .ok)]
+  | .recv =>
+    match c.st.eg.buf with
+    | v :: rest => [({ c with st := { c.st with eg := { c.st.eg with buf := rest }, delivered := c.st.delivered ++ [v] } }, .value v)]
+    | [] =>
+      let hs := handoffG g c
+      if hs.isEmpty then [(c, if c.st.eg.closed then .closed else .empty)]
+      else hs.map fun (q, v) => (q, .value v)
+  | .cancel => [({ c with st := { c.st with cancelled := true } }, .ok)]
+
+/-- one step of the network over the graph: a pump step (none once it has panicked) or an environment move -/
+def GStep (g : Graph) (c c' : Conf α) : Prop :=
+  (c.st.panicked = false ∧ c' ∈ step g c) ∨ ∃ m o, (c', o) ∈ envNextG g c m
+
+inductive GReachable (g : Graph) (cap : Nat) : Conf α → Prop
+  | init : GReachable g cap { node := 0, reg := none, st := Unbound.init cap }
+  | step {c c'} : GReachable g cap c → GStep g c c' → GReachable g cap c'
+
 end Golem.Model.CFG
